@@ -472,6 +472,7 @@ def threaded_clients(nclients, preempt, stale=0, only=None, lines=True):
     state = dict(stop=False)
 
     def send(origin, cid, data, remote=False):
+        data = sx.mkbytes(list(sx.items(data)))      # the bus serialises the frame when send() is called
         with cond:
             w.log.append((origin, cid, data))
             w.parked.append((origin, cid, data))
